@@ -9,6 +9,8 @@ if [ "$1" = "--clean" ]; then
   rm -rf $EV_REPO $EV_VERIF; exit 0
 fi
 PATCH=$(readlink -f "$1"); shift
+# one evaluation at a time: the scratch worktrees are shared (concurrent callers reset each other's patch)
+exec 9>/tmp/seedeval.lock; flock 9
 [ -d $EV_REPO ] || git -C /repo worktree add -q --detach $EV_REPO HEAD
 git -C $EV_REPO checkout -q --detach $(git -C /repo rev-parse HEAD) && git -C $EV_REPO checkout -q -- . && git -C $EV_REPO clean -qfd -e target
 sleep 2   # keep restored and patched files strictly newer than any earlier build output (cargo freshness is by mtime)
